@@ -347,7 +347,15 @@ func isConstVal(v ssa.Value) bool {
 func (c *FnVC) strConcat(a, b string) string {
 	n := c.freshConst("cat", "Str")
 	c.assume(fmt.Sprintf("(= (str_len %s) (bvadd (str_len %s) (str_len %s)))", n, a, b))
-	c.assume(fmt.Sprintf("(= (str_arr %s) (lambda ((i (_ BitVec 64))) (ite (bvult i (str_len %s)) (select (str_arr %s) i) (ite (bvult i (bvadd (str_len %s) (str_len %s))) (select (str_arr %s) (bvsub i (str_len %s))) #x00))))", n, a, a, a, b, b, a))
+	c.assume(fmt.Sprintf("(forall ((i (_ BitVec 64))) (! (= (select (str_arr %s) i) (ite (bvult i (str_len %s)) (select (str_arr %s) i) (ite (bvult i (bvadd (str_len %s) (str_len %s))) (select (str_arr %s) (bvsub i (str_len %s))) #x00))) :pattern ((select (str_arr %s) i))))", n, a, a, a, b, b, a, n))
+	return n
+}
+
+// substr: the string s[lo:hi] as a fresh constant with pointwise definition.
+func (c *FnVC) substr(s, lo, hi string) string {
+	n := c.freshConst("substr", "Str")
+	c.assume(fmt.Sprintf("(= (str_len %s) (bvsub %s %s))", n, hi, lo))
+	c.assume(fmt.Sprintf("(forall ((i (_ BitVec 64))) (! (= (select (str_arr %s) i) (ite (bvult i (bvsub %s %s)) (select (str_arr %s) (bvadd i %s)) #x00)) :pattern ((select (str_arr %s) i))))", n, hi, lo, s, lo, n))
 	return n
 }
 
@@ -418,7 +426,10 @@ func (c *FnVC) convert(x *ssa.Convert) {
 
 // bytesToStr: the string holding the current contents of byte slice s.
 func (c *FnVC) bytesToStr(s, h8 string) string {
-	return fmt.Sprintf("(mkStr (s_len %s) (lambda ((i (_ BitVec 64))) (ite (bvult i (s_len %s)) (select %s (elem %s i)) #x00)))", s, s, h8, s)
+	n := c.freshConst("bstr", "Str")
+	c.assume(fmt.Sprintf("(= (str_len %s) (s_len %s))", n, s))
+	c.assume(fmt.Sprintf("(forall ((i (_ BitVec 64))) (! (= (select (str_arr %s) i) (ite (bvult i (s_len %s)) (select %s (elem %s i)) #x00)) :pattern ((select (str_arr %s) i))))", n, s, h8, s, n))
+	return n
 }
 
 func (c *FnVC) slice(x *ssa.Slice) {
@@ -450,7 +461,7 @@ func (c *FnVC) slice(x *ssa.Slice) {
 		}
 		c.oblige("slice", fmt.Sprintf("(and (bvsle #x0000000000000000 %s) (bvsle %s %s) (bvsle %s (str_len %s)))", lo, lo, hi, hi, s), b,
 			"string slice bounds in range "+c.srcAt(x.Pos()), x.Pos())
-		c.setVal(x, fmt.Sprintf("(mkStr (bvsub %s %s) (lambda ((i (_ BitVec 64))) (ite (bvult i (bvsub %s %s)) (select (str_arr %s) (bvadd i %s)) #x00)))", hi, lo, hi, lo, s, lo))
+		c.setVal(x, c.substr(s, lo, hi))
 	case *types.Pointer:
 		arr := t.Elem().Underlying().(*types.Array)
 		c.nilCheck(x.X, x)
@@ -507,7 +518,13 @@ func (c *FnVC) mkIface(t types.Type, val string) string {
 }
 
 func (c *FnVC) box(t types.Type, val string) string {
-	return fmt.Sprintf("(%s %s)", c.te.boxFn(c.te.sortOf(t)), val)
+	so := c.te.sortOf(t)
+	b := fmt.Sprintf("(%s %s)", c.te.boxFn(so), val)
+	// instance of the injection axiom unbox(box(v)) == v (kept quantifier-free)
+	n := c.freshName("boxed")
+	c.def(n, "Box", b)
+	c.assume(fmt.Sprintf("(= (%s %s) %s)", c.te.unboxFn(so), n, val))
+	return n
 }
 func (c *FnVC) unbox(t types.Type, b string) string {
 	return fmt.Sprintf("(%s %s)", c.te.unboxFn(c.te.sortOf(t)), b)
